@@ -135,6 +135,8 @@ def to_ast(s):
         return ('filter', s[1], to_ast(s[2]), to_ast(s[3]))
     if h == 'StreamFold':
         return ('fold', s[1], s[2], to_ast(s[3]), to_ast(s[4]), to_ast(s[5]))
+    if h == 'StreamScan':
+        return ('scan', s[1], s[2], to_ast(s[3]), to_ast(s[4]), to_ast(s[5]))
     if h == 'MakeStruct':
         return ('struct', tuple((f[0], to_ast(f[1])) for f in s[1:]))
     if h == 'GetField':
@@ -198,7 +200,7 @@ def slots(n):
         return [(n[1], (), 'v')]
     if k in ('map', 'filter'):
         return [(n[2], (), 'v'), (n[3], (n[1],), 'v')]
-    if k == 'fold':
+    if k in ('fold', 'scan'):
         return [(n[3], (), 'v'), (n[4], (), 'v'), (n[5], (n[1], n[2]), 'v')]
     if k == 'struct':
         return [(e, (), 'v') for _, e in n[1]]
@@ -334,8 +336,8 @@ def rebuild(n, f):
         return (k, next(it))
     if k in ('map', 'filter'):
         return (k, n[1], next(it), next(it))
-    if k == 'fold':
-        return ('fold', n[1], n[2], next(it), next(it), next(it))
+    if k in ('fold', 'scan'):
+        return (k, n[1], n[2], next(it), next(it), next(it))
     if k == 'struct':
         return ('struct', tuple((f_, next(it)) for f_, _ in n[1]))
     if k == 'get':
@@ -652,6 +654,19 @@ def ev(n, rho, A):
             r2[n[2]] = w
             s = ev(n[5], r2, A)
         return s
+    if k == 'scan':
+        vs, o = as_arr(ev(n[3], rho, A))
+        if vs is None:
+            return o
+        s = ev(n[4], rho, A)
+        out = [s]
+        for w in vs:
+            r2 = dict(rho)
+            r2[n[1]] = s
+            r2[n[2]] = w
+            s = ev(n[5], r2, A)
+            out.append(s)
+        return ('arr', out)
     if k == 'struct':
         return ('st', [(f, ev(e, rho, A)) for f, e in n[1]])
     if k == 'get':
@@ -904,7 +919,7 @@ class Gen:
             if scope.ag is not None:
                 opts = ['aggcollect'] * 4 + ['aggfilter'] * 2 + ['agglet'] * 2 + ['aggexplode'] * 2 + ['mk', 'if', 'let']
         elif t[0] == 'stream':
-            opts = ['tostream', 'map', 'map', 'filter']
+            opts = ['tostream', 'map', 'map', 'filter'] + (['scan', 'scan'] if t[1] == I32 else [])
         elif t[0] == 'st':
             opts += ['mk', 'mk', 'ins', 'ins'] if t[1] else ['mk']
         elif t[0] == 'tup':
@@ -1036,7 +1051,7 @@ class Gen:
         if o == 'gte':
             s = self.expr(TUP, scope, d)
             return self.add(['gte', s, 0 if t == I32 else 1], t, *self.merge([s]))
-        if o == 'fold':
+        if o in ('fold', 'scan'):
             et = rng.choice([I32, I32, ST_AB])
             s = self.expr(['stream', et], scope, d)
             z = self.expr(I32, scope, d)
@@ -1045,11 +1060,25 @@ class Gen:
             ev = dict(scope.ev)
             ev[acc] = I32
             ev[v] = et
-            b = self.expr(I32, Scope(ev, None), d)
+            r = rng.random()
+            if r < 0.45:
+                # ONE sub-expression that depends on the accumulator only (or on the element only), used several times in the body:
+                # d = acc * k;  (d + x) * (d - x) + d   — its binding belongs inside the body, below the binder of the accumulator
+                dep = acc if r < 0.3 or et != I32 else v
+                rd = self.add(['ref', dep, I32], I32, {dep: tkey(I32)}, {}, False)
+                k = self.expr(I32, Scope(dict(scope.ev), None), 0)
+                dd = self.add(['bin', rng.choice(['*', '+', '-']), rd, k], I32, *self.merge([rd, k]))
+                other = self.expr(I32, Scope(ev, None), min(d, 1))
+                p1 = self.add(['bin', '+', dd, other], I32, *self.merge([dd, other]))
+                p2 = self.add(['bin', '-', dd, other], I32, *self.merge([dd, other]))
+                pm = self.add(['bin', '*', p1, p2], I32, *self.merge([p1, p2]))
+                b = self.add(['bin', '+', pm, dd], I32, *self.merge([pm, dd]))
+            else:
+                b = self.expr(I32, Scope(ev, None), d)
             fb, ab, gb = self.merge([b], [acc, v])
             fv_, fav, g = self.merge([s, z])
             fv_.update(fb)
-            return self.add(['fold', acc, v, s, z, b], t, fv_, fav, g)
+            return self.add([o, acc, v, s, z, b], t, fv_, fav, g)
         if o == 'mk':
             if t[0] == 'arr':
                 kids = [self.expr(t[1], scope, d) for _ in range(rng.choice([1, 2, 2, 3]))]
@@ -1214,7 +1243,7 @@ def prune(nodes, root):
             return [n[1]]
         if k in ('map', 'filter'):
             return [n[2], n[3]]
-        if k == 'fold':
+        if k in ('fold', 'scan'):
             return [n[3], n[4], n[5]]
         if k == 'struct':
             return [c for _, c in n[1]]
@@ -1269,8 +1298,8 @@ def prune(nodes, root):
             return [k, m(n[1])]
         if k in ('map', 'filter'):
             return [k, n[1], m(n[2]), m(n[3])]
-        if k == 'fold':
-            return ['fold', n[1], n[2], m(n[3]), m(n[4]), m(n[5])]
+        if k in ('fold', 'scan'):
+            return [k, n[1], n[2], m(n[3]), m(n[4]), m(n[5])]
         if k == 'struct':
             return ['struct', [[f, m(c)] for f, c in n[1]]]
         if k == 'get':
@@ -1489,7 +1518,7 @@ class C35(Prop):
     budget = {'quick': 2500, 'thorough': 40000}
     search_budget = {'quick': 2500, 'thorough': 40000}
     rule = ('case = a DAG over I32/True/False/Ref/ApplyBinaryPrimOp/ApplyUnaryPrimOp/ApplyComparisonOp/If/Let/MakeArray/ArrayRef/ArrayLen/'
-            'ToArray/ToStream/StreamMap/StreamFilter/StreamFold/MakeStruct/GetField/InsertFields/MakeTuple/GetTupleElement/StreamAgg/AggLet/'
+            'ToArray/ToStream/StreamMap/StreamFilter/StreamFold/StreamScan/MakeStruct/GetField/InsertFields/MakeTuple/GetTupleElement/StreamAgg/AggLet/'
             'AggFilter/AggExplode/AggGroupBy/ApplyAggOp(Max,Collect) built with the real constructors; a typed random generator reuses already built node '
             'objects wherever they are well-scoped (under lambdas, in If branches, in Let bodies, across binders of the same name, in '
             'aggregation scope; one aggregation / AggFilter / AggExplode / AggGroupBy object under and outside such a node, twice under it, '
@@ -1514,7 +1543,7 @@ class C35(Prop):
                    'TableCount, TableGetGlobals); NOT generated, no statement: every scan context (ApplyScanOp, StreamAggScan, AggLet True, '
                    'AggFold True, scan_bindings of TableMapRows / MatrixMapRows / MatrixMapCols), AggArrayPerElement, TailLoop, '
                    'ArrayMaximalIndependentSet, NDArrayMap, NDArrayMap2, ArraySort, StreamZip, StreamZipJoin, StreamZipJoinProducers, '
-                   'StreamFlatMap, StreamScan (C36 only), StreamJoinRightDistinct, StreamFor, init-op arguments of ApplyAggOp, TableAggregate, '
+                   'StreamFlatMap, StreamJoinRightDistinct, StreamFor, init-op arguments of ApplyAggOp, TableAggregate, '
                    'MatrixAggregate, TableMapGlobals, TableMapPartitions, TableKeyByAndAggregate, TableAggregateByKey, TableGen, all MatrixIR '
                    'and BlockMatrixIR nodes, randomness; AggGroupBy keys are int32 / bool (the model decides key equality for scalars only); '
                    'no statement about CSERenderer on node kinds outside the generated set, nor about the engine\'s parser or evaluator']
@@ -1590,6 +1619,8 @@ class C35(Prop):
                 o = ir.StreamFilter(g(n[2]), n[1], g(n[3]))
             elif k == 'fold':
                 o = ir.StreamFold(g(n[3]), g(n[4]), n[1], n[2], g(n[5]))
+            elif k == 'scan':
+                o = ir.StreamScan(g(n[3]), g(n[4]), n[1], n[2], g(n[5]))
             elif k == 'struct':
                 o = ir.MakeStruct([(f, g(c)) for f, c in n[1]])
             elif k == 'get':
@@ -1987,7 +2018,7 @@ class C35(Prop):
             tags.append('lifted-into-agg-scope' if agg_b else 'lifted-in-value-scope-only')
             tags.append('validated-by=verified-validator' if m.group(1) == '1' else 'rejected-by-the-validator')
             names = [n[1] for n in c['nodes'] if n[0] in ('let', 'map', 'filter', 'sagg', 'agglet', 'aggexplode')] + \
-                    [x for n in c['nodes'] if n[0] == 'fold' for x in (n[1], n[2])]
+                    [x for n in c['nodes'] if n[0] in ('fold', 'scan') for x in (n[1], n[2])]
             if len(names) != len(set(names)):
                 tags.append('binder-names-reused')
         self.stats['programs'] += 1
@@ -2016,7 +2047,7 @@ class C35(Prop):
             return [n[1], n[2]]
         if k in ('alen', 'toarray', 'tostream', 'get', 'gte'):
             return [n[1]]
-        if k == 'fold':
+        if k in ('fold', 'scan'):
             return [n[3], n[4], n[5]]
         if k == 'struct':
             return [ch for _, ch in n[1]]
